@@ -376,10 +376,12 @@ impl Part for DecodeLoop {
         }
         // the same bytes arriving piecewise at one codec (as a connection's receive loop sees them) must give the same
         // sequence of results as frame-by-frame decoding with a fresh codec: what was buffered when must not matter
+        let mut spans: Vec<(usize, usize)> = vec![];
         let reference = {
             let mut out: Vec<String> = vec![];
             let mut rest = BytesMut::from(&c.buf[..]);
             loop {
+                let before = c.buf.len() - rest.len();
                 let r = guard(|| Codec::new(mode.clone()).decode(&mut rest)).map_err(|p| Fail::new("c04:decoder-panic", p))?;
                 match r {
                     Ok(None) => break,
@@ -390,9 +392,43 @@ impl Part for DecodeLoop {
                     Ok(Some(p)) => out.push(format!("{p:?}")),
                     Err(_) => out.push("decode error".into()),
                 }
+                spans.push((before, c.buf.len() - rest.len()));
             }
             (out, rest.len())
         };
+        // what a frame decodes to must not depend on the frames decoded before it (by this codec, this thread, this process):
+        // every frame once more on its own, on a fresh thread and in REVERSE order
+        if spans.len() >= 2 {
+            let alone: Vec<Result<String, String>> = in_fresh_thread(|| {
+                let mut v: Vec<Result<String, String>> = spans
+                    .iter()
+                    .rev()
+                    .map(|(a, b)| {
+                        let mut one = BytesMut::from(&c.buf[*a..*b]);
+                        guard(|| match Codec::new(mode.clone()).decode(&mut one) {
+                            Ok(Some(p)) => format!("{p:?}"),
+                            Ok(None) => "need more".to_string(),
+                            Err(insim::Error::IO { .. }) => "framing".to_string(),
+                            Err(_) => "decode error".to_string(),
+                        })
+                    })
+                    .collect();
+                v.reverse();
+                v
+            });
+            for (i, a) in alone.iter().enumerate() {
+                let a = a.as_ref().map_err(|p| Fail::new("c04:decoder-panic", p.clone()))?;
+                ensure!(
+                    *a == reference.0[i],
+                    "c04:result-depends-on-earlier-frames",
+                    "{}: frame #{i} ({}) decodes to {} after the frames before it, but to {} on its own",
+                    mode_name(&mode),
+                    hex(&c.buf[spans[i].0..spans[i].1.min(spans[i].0 + 48)]),
+                    reference.0[i].chars().take(160).collect::<String>(),
+                    a.chars().take(160).collect::<String>()
+                );
+            }
+        }
         for pattern in [1usize, 3, 5, 7] {
             let codec = Codec::new(mode.clone());
             let mut b = BytesMut::new();
@@ -598,6 +634,42 @@ pub fn parts() -> Vec<Box<dyn DynPart>> {
     vec![Box::new(RandomBytes), Box::new(Mutations), Box::new(HeaderPairs), Box::new(EnumPositions), Box::new(Regress), Box::new(DecodeLoop), Box::new(LengthFn)]
 }
 
+
+/// frames of any type whose body is dense in text structure (see run(), c3); each followed by a valid TINY when `with_tiny`
+fn dense_text_strategy(with_tiny: bool) -> impl Strategy<Value = BufCase> {
+    let token = prop_oneof![
+        6 => prop::sample::select(b"LGCETBJSKH8".to_vec()).prop_map(|l| vec![b'^', l]),
+        1 => Just(vec![b'^', b'^']),
+        1 => Just(vec![b'^']),
+        2 => (0x81u8..=0xFE).prop_map(|b| vec![b]),
+        2 => (0x20u8..0x7F).prop_map(|b| vec![b]),
+        1 => Just(vec![0u8]),
+        1 => prop::sample::select(b"LGCETBJSKH8".to_vec()).prop_map(|l| vec![b'^', l, 0xE9]),
+    ];
+    (any::<bool>(), 1u8..=70, any::<[u8; 2]>(), 0usize..12, proptest::collection::vec(token, 1..5), 1usize..520).prop_map(move |(compressed, ty, hdr, prefix, tokens, repeat)| {
+        let limit = if compressed { 1020 } else { 252 };
+        let mut body: Vec<u8> = vec![0; prefix];
+        'fill: for _ in 0..repeat {
+            for t in &tokens {
+                if 4 + body.len() + t.len() > limit {
+                    break 'fill;
+                }
+                body.extend_from_slice(t);
+            }
+        }
+        while (4 + body.len()) % 4 != 0 {
+            body.push(0);
+        }
+        let len = 4 + body.len();
+        let mut buf = vec![if compressed { (len / 4) as u8 } else { len as u8 }, ty, hdr[0], hdr[1]];
+        buf.extend_from_slice(&body);
+        if with_tiny {
+            buf.extend_from_slice(&[if compressed { 1 } else { 4 }, 3, 9, 3]);
+        }
+        BufCase { compressed, buf }
+    })
+}
+
 pub fn run(run: &mut Run) {
     if let Some(p) = coverage_problem() {
         eprintln!("HARNESS OUT OF DATE: {p}");
@@ -653,40 +725,14 @@ pub fn run(run: &mut Run) {
     // (c3) frames of any type whose body is dense in text structure: runs of codepage markers (one switch every two bytes, up to
     // 500 of them), escaped and lone carets, double-byte lead bytes, NULs - repeated to fill frames of every length up to the
     // mode's limit; followed by a valid TINY
-    let token = prop_oneof![
-        6 => prop::sample::select(b"LGCETBJSKH8".to_vec()).prop_map(|l| vec![b'^', l]),
-        1 => Just(vec![b'^', b'^']),
-        1 => Just(vec![b'^']),
-        2 => (0x81u8..=0xFE).prop_map(|b| vec![b]),
-        2 => (0x20u8..0x7F).prop_map(|b| vec![b]),
-        1 => Just(vec![0u8]),
-        1 => prop::sample::select(b"LGCETBJSKH8".to_vec()).prop_map(|l| vec![b'^', l, 0xE9]),
-    ];
-    let strat = (any::<bool>(), 1u8..=70, any::<[u8; 2]>(), 0usize..12, proptest::collection::vec(token, 1..5), 1usize..520).prop_map(|(compressed, ty, hdr, prefix, tokens, repeat)| {
-        let limit = if compressed { 1020 } else { 252 };
-        let mut body: Vec<u8> = vec![0; prefix];
-        'fill: for _ in 0..repeat {
-            for t in &tokens {
-                if 4 + body.len() + t.len() > limit {
-                    break 'fill;
-                }
-                body.extend_from_slice(t);
-            }
-        }
-        while (4 + body.len()) % 4 != 0 {
-            body.push(0);
-        }
-        let len = 4 + body.len();
-        let mut buf = vec![if compressed { (len / 4) as u8 } else { len as u8 }, ty, hdr[0], hdr[1]];
-        buf.extend_from_slice(&body);
-        buf.extend_from_slice(&[if compressed { 1 } else { 4 }, 3, 9, 3]);
-        BufCase { compressed, buf }
-    });
+    let strat = dense_text_strategy(true);
     let n = run.budget(100_000, 5_000_000);
     run.prop(&Mutations, strat, n);
     // (f) receive loop over concatenations of mutated frames and random tails
-    let strat = (proptest::collection::vec(mutation_strategy(), 1..8), proptest::collection::vec(any::<u8>(), 0..40)).prop_map(|(parts, tail)| {
-        let compressed = parts[0].compressed;
+    let piece = (any::<u8>(), mutation_strategy(), dense_text_strategy(false)).prop_map(|(k, a, b)| if k % 5 < 3 { a } else { b });
+    let strat = (any::<bool>(), proptest::collection::vec(piece, 1..8), proptest::collection::vec(any::<u8>(), 0..40)).prop_map(|(flip, parts, tail)| {
+        // (pieces built for the other size mode are simply bytes whose size byte means something else)
+        let compressed = parts[0].compressed ^ (flip && parts.len() % 4 == 0);
         let mut buf = vec![];
         for p in parts {
             buf.extend_from_slice(&p.buf);
